@@ -1,4 +1,6 @@
-"""C19 - book-builder graph scores stay at their defined fixed point (spec/BookGraph.tla).
+"""C19 - book-builder graph scores stay at their defined fixed point (spec/BookGraph.tla, BookProp.tla, BookOps.tla).
+(design) BookProp.tla models BookNode::updateScores step by step; TLC checks on small shapes that every operation ends at the fixed
+point and refutes two known-defective variants.  (replay) every transition of BookOps.tla's state graph is replayed on the real Book.
 Random operation sequences (extend under random nodes incl. transpositions, search results incl. mate/INVALID/IGNORE, pending marks,
 PGN import, save/load) are applied to the real BookBuild::Book through the friend class name BookBuildTest; after (every k-th) operation
 the whole node graph is dumped and TLC evaluates FixedPoint: links, shortest depth, negamax, expansion costs, path errors; a reloaded
@@ -99,6 +101,28 @@ def run(tier, seed):
         files.append(out)
         for k in tot:
             tot[k] = max(tot[k], info[k]) if k == "max_nodes" else tot[k] + info[k]
+    # design level: the propagation algorithm (BookProp.tla) against the equations, exhaustively on the small shapes;
+    # the two defect switches must be refuted (vacuity controls)
+    def mc(j):
+        cfg, expect_hold = j
+        r = vlib.tlc("MC_BookProp.tla", cfg, os.path.join(wd, "prop_" + cfg), workers=4, timeout=2400, xmx="4g")
+        return cfg, expect_hold, r
+    design = [("MC_BookProp_chain.cfg", True), ("MC_BookProp_chain_std.cfg", True), ("MC_BookProp_diamond.cfg", True),
+              ("MC_BookProp_noqueue.cfg", False), ("MC_BookProp_oldwhite.cfg", False)]
+    dres = []
+    for cfg, expect_hold, r in vlib.pmap(mc, design, workers=5):
+        if expect_hold:
+            if r.violated:
+                rep.violation("design:BookProp:" + cfg, f"BookProp.tla ({cfg}): the modelled propagation algorithm leaves the fixed point ({r.violated})",
+                              text=r.out[-6000:])
+            elif not r.ok:
+                raise vlib.ToolFailure(f"MC_BookProp {cfg}: {r.out[-1200:]}")
+            rep.add("states", r.distinct)
+            rep.add("transitions", r.generated)
+        elif not r.violated:
+            raise vlib.ToolFailure(f"vacuity control failed: {cfg} (a known-defective propagation) was not refuted")
+        dres.append({"cfg": cfg, "distinct_states": r.distinct, "refuted": bool(r.violated)})
+    rep.cov["design_model_runs"] = dres
     # behaviour replay of the BookOps state graph
     import random
     rjobs = []
